@@ -20,7 +20,7 @@ EXPLANATION = (
     "NOT decided (the bulk of C08): that means, variances, likelihood values and updates equal the textbook expressions - "
     "a wrong sign, factor or a mathematically wrong but shape-correct formula is invisible to these rules.")
 
-FLOOR = {"S1": 3, "S2": 4, "S3": 2, "S4": 5}
+FLOOR = {"S1": 3, "S2": 4, "S3": 8, "S4": 5}
 
 MODP = "syne_tune.optimizer.schedulers.searchers.bayesopt.gpautograd.posterior_utils."
 
@@ -120,6 +120,31 @@ def s3(ctx, rep):
     rep.put(ok, "S3", "agreement", "sample_and_cholesky_update: the new feature row is appended last", g, None, "")
 
 
+def s3b(ctx, rep):
+    """sibling calls inside posterior_utils forward a parameter under its own name unchanged"""
+    P = ctx.P
+    mod = P.modules[MODP[:-1]]
+    n = 0
+    for f in mod.functions.values():
+        for x in walk_shallow(f.node):
+            if not (isinstance(x, ast.Call) and isinstance(x.func, ast.Name) and x.func.id in mod.functions):
+                continue
+            g = mod.functions[x.func.id]
+            for kw_ in x.keywords:
+                if kw_.arg and kw_.arg in f.params and kw_.arg in g.params:
+                    n += 1
+                    ok = isinstance(kw_.value, ast.Name) and kw_.value.id == kw_.arg
+                    rep.put(ok, "S3", "agreement", f"{f.name} → {g.name}: parameter `{kw_.arg}` forwarded unchanged", f, kw_.value, "",
+                            f"`{kw_.arg}={U(kw_.value)}`: {g.name} receives something other than the caller's own `{kw_.arg}` (e.g. the kernel "
+                            "without its covariance scale): the incremental update no longer agrees with recomputing from scratch")
+            ps = [p_ for p_ in g.params]
+            for i, a in enumerate(x.args):
+                if i < len(ps) and ps[i] in f.params and isinstance(a, ast.Name) and a.id in f.params:
+                    n += 1
+                    rep.put(a.id == ps[i], "S3", "agreement", f"{f.name} → {g.name}: positional `{ps[i]}` forwarded unchanged", f, a, "")
+    return n
+
+
 def s4(ctx, rep):
     P = ctx.P
     checks = shapes.check_posterior_utils(ctx)
@@ -133,4 +158,5 @@ def run(ctx, rep, tier="quick"):
     s1(ctx, rep)
     s2(ctx, rep)
     s3(ctx, rep)
+    s3b(ctx, rep)
     s4(ctx, rep)
